@@ -180,6 +180,16 @@ func (c *checker) checkResult(r *lazyproto.DecodeResult, def lazyproto.Def, fiel
 			continue
 		}
 		c.calls++
+		{
+			var nrNeg *lazyproto.DecodeResult
+			var errNeg error
+			if !c.guard("NestedResult(negated "+where+")", func() { nrNeg, errNeg = r.NestedResult(-tag) }) {
+				c.calls++
+				if (err == nil) != (errNeg == nil) || (nr == nil) != (nrNeg == nil) {
+					c.fail("NestedResult/negated-tag-differs", where, fmt.Sprintf("tag %d: err=%v; tag %d: err=%v", tag, err, -tag, errNeg))
+				}
+			}
+		}
 		var subFields map[int][]lazyref.Occ
 		subOK := false
 		if want == lazyref.ENone {
